@@ -134,6 +134,28 @@ pub trait Shape: Flat {
     fn rust_default() -> Option<Value> {
         None
     }
+    /// A random *content* of this type (the specification's content form), for the seeded drivers.
+    fn rand_content(rng: &mut crate::drive::Rng, depth: usize) -> Value;
+    /// A random operation applicable in the current state: (path, operation).
+    fn rand_op(&self, _rng: &mut crate::drive::Rng) -> Option<(Vec<usize>, Value)> {
+        None
+    }
+}
+
+pub fn mk_op(name: &str, n: usize, v: Value) -> Value {
+    json!({"op": name, "n": n, "v": v})
+}
+pub fn rand_digits(rng: &mut crate::drive::Rng, w: usize) -> Value {
+    json!((0..w).map(|_| rng.byte()).collect::<Vec<u8>>())
+}
+fn prefixed(i: usize, sub: Option<(Vec<usize>, Value)>) -> Option<(Vec<usize>, Value)> {
+    sub.map(|(mut p, o)| {
+        p.insert(0, i);
+        (p, o)
+    })
+}
+pub fn child_op<T: Shape + ?Sized>(i: usize, child: &T, rng: &mut crate::drive::Rng) -> Option<(Vec<usize>, Value)> {
+    prefixed(i, child.rand_op(rng))
 }
 
 pub trait SizedShape: Shape + Sized + PartialEq + Clone {
@@ -188,6 +210,8 @@ macro_rules! impl_int {
             fn read(&self, c: &mut Ctx) -> Value { c.node(stringify!($t), self); json!(self.to_le_bytes().to_vec()) }
             fn apply_here(&mut self, op: &Value, fl: u32) -> Value { set_here(self, op, fl) }
             fn rust_default() -> Option<Value> { Some(<$t>::default().read(&mut Ctx::unbounded())) }
+            fn rand_content(rng: &mut crate::drive::Rng, _d: usize) -> Value { rand_digits(rng, std::mem::size_of::<$t>()) }
+            fn rand_op(&self, rng: &mut crate::drive::Rng) -> Option<(Vec<usize>, Value)> { Some((vec![], mk_op("set", 0, Self::rand_content(rng, 0)))) }
         }
         impl SizedShape for $t {
             fn from_val(v: &Value) -> Self { let b = bytes_of(v); <$t>::from_le_bytes(b.as_slice().try_into().expect("digit count")) }
@@ -206,6 +230,8 @@ macro_rules! impl_float {
             fn read(&self, c: &mut Ctx) -> Value { c.node(stringify!($t), self); json!(self.to_bits().to_le_bytes().to_vec()) }
             fn apply_here(&mut self, op: &Value, fl: u32) -> Value { set_here(self, op, fl) }
             fn rust_default() -> Option<Value> { Some(<$t>::default().read(&mut Ctx::unbounded())) }
+            fn rand_content(rng: &mut crate::drive::Rng, _d: usize) -> Value { rand_digits(rng, std::mem::size_of::<$t>()) }
+            fn rand_op(&self, rng: &mut crate::drive::Rng) -> Option<(Vec<usize>, Value)> { Some((vec![], mk_op("set", 0, Self::rand_content(rng, 0)))) }
         }
         impl SizedShape for $t {
             fn from_val(v: &Value) -> Self { let b = bytes_of(v); <$t>::from_bits(<$bits>::from_le_bytes(b.as_slice().try_into().expect("digit count"))) }
@@ -223,6 +249,8 @@ macro_rules! impl_pint {
             fn read(&self, c: &mut Ctx) -> Value { c.node(stringify!($t), self); json!(<$n>::from(*self).to_le_bytes().to_vec()) }
             fn apply_here(&mut self, op: &Value, fl: u32) -> Value { set_here(self, op, fl) }
             fn rust_default() -> Option<Value> { Some(<$t>::default().read(&mut Ctx::unbounded())) }
+            fn rand_content(rng: &mut crate::drive::Rng, _d: usize) -> Value { rand_digits(rng, std::mem::size_of::<$t>()) }
+            fn rand_op(&self, rng: &mut crate::drive::Rng) -> Option<(Vec<usize>, Value)> { Some((vec![], mk_op("set", 0, Self::rand_content(rng, 0)))) }
         }
         impl SizedShape for $t {
             fn from_val(v: &Value) -> Self { let b = bytes_of(v); <$t>::from(<$n>::from_le_bytes(b.as_slice().try_into().expect("digit count"))) }
@@ -240,6 +268,8 @@ macro_rules! impl_pfloat {
             fn read(&self, c: &mut Ctx) -> Value { c.node(stringify!($t), self); json!(<$n>::from(*self).to_bits().to_le_bytes().to_vec()) }
             fn apply_here(&mut self, op: &Value, fl: u32) -> Value { set_here(self, op, fl) }
             fn rust_default() -> Option<Value> { Some(<$t>::default().read(&mut Ctx::unbounded())) }
+            fn rand_content(rng: &mut crate::drive::Rng, _d: usize) -> Value { rand_digits(rng, std::mem::size_of::<$t>()) }
+            fn rand_op(&self, rng: &mut crate::drive::Rng) -> Option<(Vec<usize>, Value)> { Some((vec![], mk_op("set", 0, Self::rand_content(rng, 0)))) }
         }
         impl SizedShape for $t {
             fn from_val(v: &Value) -> Self { let b = bytes_of(v); <$t>::from(<$n>::from_bits(<$bits>::from_le_bytes(b.as_slice().try_into().expect("digit count")))) }
@@ -256,6 +286,9 @@ impl Shape for () {
     }
     fn rust_default() -> Option<Value> {
         Some(json!([]))
+    }
+    fn rand_content(_rng: &mut crate::drive::Rng, _d: usize) -> Value {
+        json!([])
     }
 }
 impl SizedShape for () {
@@ -274,6 +307,12 @@ impl Shape for Bool {
     }
     fn rust_default() -> Option<Value> {
         Some(Bool::default().read(&mut Ctx::unbounded()))
+    }
+    fn rand_content(rng: &mut crate::drive::Rng, _d: usize) -> Value {
+        json!(rng.below(2))
+    }
+    fn rand_op(&self, rng: &mut crate::drive::Rng) -> Option<(Vec<usize>, Value)> {
+        Some((vec![], mk_op("set", 0, Self::rand_content(rng, 0))))
     }
 }
 impl SizedShape for Bool {
@@ -298,6 +337,12 @@ impl<T: SizedShape, const N: usize> Shape for [T; N] {
     }
     fn probe(&self, base: usize) -> Value {
         json!({"elems": self.iter().map(|x| x as *const T as usize - base).collect::<Vec<_>>()})
+    }
+    fn rand_content(rng: &mut crate::drive::Rng, d: usize) -> Value {
+        Value::Array((0..N).map(|_| T::rand_content(rng, d)).collect())
+    }
+    fn rand_op(&self, rng: &mut crate::drive::Rng) -> Option<(Vec<usize>, Value)> {
+        if N == 0 { None } else { Some((vec![], mk_op("set", 0, Self::rand_content(rng, 0)))) }
     }
 }
 impl<T: SizedShape, const N: usize> SizedShape for [T; N] {
@@ -380,6 +425,29 @@ impl<T: SizedShape, L: Flat + Length> Shape for FlatVec<T, L> {
     fn probe(&self, base: usize) -> Value {
         json!({"data": self.data().as_ptr() as usize - base, "cap": self.capacity()})
     }
+    fn rand_content(rng: &mut crate::drive::Rng, d: usize) -> Value {
+        let n = if rng.chance(10) { rng.below(20) } else { rng.below(6) };
+        Value::Array((0..n).map(|_| T::rand_content(rng, d)).collect())
+    }
+    fn rand_op(&self, rng: &mut crate::drive::Rng) -> Option<(Vec<usize>, Value)> {
+        let (len, cap) = (self.len(), self.capacity());
+        let e = |rng: &mut crate::drive::Rng| T::rand_content(rng, 1);
+        let many = |rng: &mut crate::drive::Rng, n: usize| Value::Array((0..n).map(|_| T::rand_content(rng, 1)).collect());
+        let op = match rng.below(11) {
+            0 | 1 => mk_op("push", 0, e(rng)),
+            2 => mk_op("pop", 0, json!([])),
+            3 => { let n = rng.below(cap.saturating_sub(len).min(6) + 2); mk_op("push_slice", 0, many(rng, n)) }
+            4 => { let n = rng.below(5); mk_op("extend", 0, many(rng, n)) }
+            5 => mk_op("truncate", rng.below(len + 2), json!([])),
+            6 if len > 0 => mk_op("remove", rng.below(len), json!([])),
+            7 if len > 0 => mk_op("swap_remove", rng.below(len), json!([])),
+            8 => mk_op("resize", rng.below(cap.min(8) + 1), e(rng)),
+            9 if len > 0 => mk_op("set", rng.below(len), e(rng)),
+            10 if rng.chance(20) => mk_op("clear", 0, json!([])),
+            _ => mk_op("push", 0, e(rng)),
+        };
+        Some((vec![], op))
+    }
     fn apply_child(&mut self, path: &[usize], op: &Value, fl: u32) -> Value {
         self[path[0]].apply(&path[1..], op, fl)
     }
@@ -438,6 +506,11 @@ unsafe impl<L: Flat + Length> Emplacer<FlatString<L>> for StrEmp {
         }
     }
 }
+pub fn rand_string(rng: &mut crate::drive::Rng, max_chars: usize) -> String {
+    const CH: [char; 10] = ['a', 'Z', '0', ' ', '\u{7f}', '\u{e9}', '\u{20ac}', '\u{1f600}', '\u{7ff}', '\u{ffff}'];
+    let n = if max_chars == 1 { 1 } else { rng.below(max_chars + 1) };
+    (0..n).map(|_| CH[rng.below(CH.len())]).collect()
+}
 fn str_of(v: &Value) -> String {
     let b = if v.is_array() { bytes_of(v) } else { bytes_of(&v["bytes"]) };
     String::from_utf8(b).expect("spec strings are UTF-8")
@@ -473,6 +546,20 @@ impl<L: Flat + Length> Shape for FlatString<L> {
     }
     fn probe(&self, base: usize) -> Value {
         json!({"data": self.as_vec().data().as_ptr() as usize - base, "cap": self.capacity()})
+    }
+    fn rand_content(rng: &mut crate::drive::Rng, _d: usize) -> Value {
+        json!(rand_string(rng, 5).into_bytes())
+    }
+    fn rand_op(&self, rng: &mut crate::drive::Rng) -> Option<(Vec<usize>, Value)> {
+        let op = match rng.below(6) {
+            0 | 1 => mk_op("push", 0, json!(rand_string(rng, 1).into_bytes())),
+            2 | 3 | 4 => mk_op("push_str", 0, json!(rand_string(rng, 4).into_bytes())),
+            _ => mk_op("clear", 0, json!([])),
+        };
+        if op["op"] == "push" && op["v"].as_array().map(|a| a.is_empty()).unwrap_or(true) {
+            return Some((vec![], mk_op("push_str", 0, json!([]))));
+        }
+        Some((vec![], op))
     }
     fn apply_here(&mut self, op: &Value, fl: u32) -> Value {
         match op["op"].as_str().unwrap_or("") {
@@ -520,6 +607,28 @@ impl<T: Shape + ?Sized, L: Flat + Length> Shape for FlexVec<T, L> {
     }
     fn probe(&self, base: usize) -> Value {
         json!({"data": self.iter().next().map(|x| x as *const T as *const u8 as usize - base)})
+    }
+    fn rand_content(rng: &mut crate::drive::Rng, d: usize) -> Value {
+        let n = if d == 0 { rng.below(2) } else { rng.below(4) };
+        Value::Array((0..n).map(|_| T::rand_content(rng, d.saturating_sub(1))).collect())
+    }
+    fn rand_op(&self, rng: &mut crate::drive::Rng) -> Option<(Vec<usize>, Value)> {
+        let len = self.len();
+        if len > 0 && rng.chance(40) {
+            let i = rng.below(len);
+            if let Some(r) = self.iter().nth(i).and_then(|x| child_op(i, x, rng)) {
+                return Some(r);
+            }
+        }
+        let op = match rng.below(8) {
+            0 | 1 | 2 => mk_op("push", 0, T::rand_content(rng, 1)),
+            3 if T::has_default() => mk_op("push_default", 0, json!([])),
+            4 => mk_op("pop", 0, json!([])),
+            5 => mk_op("truncate", rng.below(len + 2), json!([])),
+            6 if rng.chance(25) => mk_op("clear", 0, json!([])),
+            _ => mk_op("push", 0, T::rand_content(rng, 1)),
+        };
+        Some((vec![], op))
     }
     fn apply_child(&mut self, path: &[usize], op: &Value, fl: u32) -> Value {
         match self.iter_mut().nth(path[0]) {
